@@ -271,6 +271,11 @@ fn oom_item(prop: Prop, base: u64, idx: u64, agg: &mut Agg) {
     agg.oom_traces += 1;
     let n = dry.res.alloc_requests;
     for k in 1..=n.min(MAX_OOM_POINTS) {
+        if proc::hangs_seen() >= 3 || agg.viols.values().filter(|v| v.mode == Mode::Oom).map(|v| v.count).sum::<u64>() >= 24 {
+            // the verdict is settled; do not spend the watchdog limit on every point
+            agg.probes.hit("oom_enumeration_cut_short_after_hangs");
+            return;
+        }
         // a transient failure of request k, then an exhausted heap from k on
         for persist in [false, true] {
             t.cfg.fail_at = k;
@@ -696,7 +701,8 @@ pub fn cmd_check(a: CheckArgs) -> i32 {
     let viols: Vec<(String, VRec)> = agg.viols.iter().map(|(k, v)| (k.clone(), v.clone())).collect();
     for (sig, v) in &viols {
         let Some(t) = trace_for(prop, a.base, v.mode, v.idx, v.k) else { continue };
-        let (min, cands) = minimise(prop, &t, sig);
+        // a hang costs the watchdog limit per candidate: report the trace as found
+        let (min, cands) = if sig.contains("/hang/") { (t.clone(), 0) } else { minimise(prop, &t, sig) };
         let confirm = eval::evaluate_isolated(prop, &min);
         let reproduced = confirm.res.viols.iter().find(|(s, _)| s == sig);
         let detail = reproduced.map(|(_, d)| d.clone()).unwrap_or_else(|| v.detail.clone());
